@@ -2,6 +2,7 @@ package serixgen
 
 import (
 	"fmt"
+	"hash/fnv"
 	"reflect"
 	"strings"
 
@@ -164,7 +165,8 @@ func (x *Runner) GenCase(rng *hx.Rng, sub uint64, typeLine string, p Plan) {
 	seenEnc := map[string]bool{}
 	for i := 0; i < p.Values; i++ {
 		v := vg.Gen(s)
-		text := ValText(s, v, TextOpts{Perm: func(n int) []int { return perm(rng, n) }})
+		salt := rng.U64()
+		text := ValText(s, v, TextOpts{Perm: func(items []string) []int { return contentPerm(salt, items) }})
 		modes := []bool{rng.Bool()}
 		if p.BothModes {
 			modes = []bool{false, true}
@@ -208,7 +210,15 @@ func (x *Runner) GenCase(rng *hx.Rng, sub uint64, typeLine string, p Plan) {
 	x.R.Sample(x.R.CaseLines())
 }
 
-func perm(rng *hx.Rng, n int) []int {
+// contentPerm: a permutation that depends only on the salt and the (sorted) entries.
+func contentPerm(salt uint64, items []string) []int {
+	h := fnv.New64a()
+	for _, it := range items {
+		h.Write([]byte(it))
+		h.Write([]byte{0})
+	}
+	rng := hx.NewRng(salt ^ h.Sum64())
+	n := len(items)
 	p := make([]int, n)
 	for i := range p {
 		p[i] = i
